@@ -1294,7 +1294,10 @@ impl<'a> Interp<'a> {
         let tgt_abs = {
             let s = self.subst(&tgt_arg);
             let p = PathBuf::from(&s);
-            lexical_normalize(&if p.is_absolute() { p } else { self.worker_cwd(st).join(p) })
+            let joined = if p.is_absolute() { p } else { self.worker_cwd(st).join(p) };
+            // the file the kernel reaches through this spelling (`dir/..` goes to the parent of what `dir` points to
+            // when `dir` is a symlink); textual folding only when the path does not resolve
+            std::fs::canonicalize(&joined).unwrap_or_else(|_| lexical_normalize(&joined))
         };
         let opts = st.get("opts").cloned().unwrap_or(json!({}));
         let entry = st["entry"].as_str().unwrap_or("fn").to_string();
@@ -1520,6 +1523,12 @@ impl<'a> Interp<'a> {
                     }
                 }
                 "mkdir" => std::fs::create_dir_all(&path),
+                "dir_symlink" => {
+                    if let Some(d) = path.parent() {
+                        std::fs::create_dir_all(d)?;
+                    }
+                    std::os::unix::fs::symlink(e["target"].as_str().unwrap_or(""), &path)
+                }
                 "insert_bytes" => {
                     let mut b = std::fs::read(&path)?;
                     let off = (st["off"].as_u64().unwrap_or(0) as usize).min(b.len());
@@ -1584,7 +1593,7 @@ impl<'a> Interp<'a> {
         }
         let after = std::fs::read(&path).ok();
         let changed = before != after;
-        if noop || (!changed && act != "noop_mark_damaged" && act != "mkdir" && act != "symlink_loop") {
+        if noop || (!changed && act != "noop_mark_damaged" && act != "mkdir" && act != "dir_symlink" && act != "symlink_loop") {
             self.probe("env_step_noop");
         } else {
             self.fault(&format!("{}{}", if st.get("content").is_some() { "content." } else if st.get("bucket").is_some() { "bucket." } else { "fs." }, act.trim_end_matches("_frac")));
